@@ -92,10 +92,26 @@ def _impl_parse1(s):
     return common.impl_parse(s, 1)[0]
 
 
+def lookup_orders(n):
+    """orders in which ONE converter object is asked for the offsets 0..n-1: ascending, descending, and a fixed
+    scrambled order with repetitions (the answer must not depend on what was asked before)"""
+    asc = list(range(n))
+    scr = [(i * 7 + 3) % n for i in range(n)] + [(i * 5 + 1) % n for i in range(n)] if n else []
+    zig = [x for i in range(n) for x in (n - 1 - i, i)]
+    return asc, asc[::-1], scr, zig
+
+
 def _impl_lines(s):
     from TexSoup.utils import CharToLineOffset
     f = CharToLineOffset(s)
-    return ['%d %d' % tuple(f(p)) for p in range(len(s) + 3)]
+    n = len(s) + 3
+    first = ['%d %d' % tuple(f(p)) for p in range(n)]
+    # the same object, asked again in other orders, must repeat its answers
+    for order in lookup_orders(n)[1:]:
+        for p in order:
+            if '%d %d' % tuple(f(p)) != first[p]:
+                first[p] = 'ORDER-DEPENDENT %d' % p
+    return first
 
 
 def _positions_in(tree):
@@ -274,8 +290,12 @@ def _oracle_doc(src):
                 check_text(c, 'tree')
 
     # (i) through the public views, then structurally (argument groups, blank text)
+    positions_seen = []
     try:
         for d in soup.descendants:
+            q = getattr(d, 'position', None)
+            if isinstance(q, int) and not isinstance(q, bool):
+                positions_seen.append(q)
             if isinstance(d, D.TexNode):
                 if d.position != d.expr.position:
                     fail('node-position', 'TexNode.position %r != expr.position %r' % (d.position, d.expr.position))
@@ -288,11 +308,20 @@ def _oracle_doc(src):
 
     # (ii) every offset of the document
     try:
-        for p in range(len(src)):
-            got = soup.char_pos_to_line(p)
-            if tuple(got) != _brute(src, p):
-                fail('line-col', 'offset %d: %r, counted %r' % (p, got, _brute(src, p)))
-                break
+        want = []
+        line = col = 0
+        for ch in src:
+            want.append((line, col))
+            line, col = (line + 1, 0) if ch == '\n' else (line, col + 1)
+        n = len(src)
+        # ascending; then the recorded positions in tree order (what a user converts); then descending
+        orders = [range(n), [q for q in positions_seen if 0 <= q < n], range(n - 1, -1, -1) if n <= 400 else ()]
+        for oi, order in enumerate(orders):
+            for p in order:
+                got = soup.char_pos_to_line(p)
+                if tuple(got) != want[p]:
+                    fail('line-col', 'offset %d: %r, counted %r (lookup order %d)' % (p, got, want[p], oi))
+                    break
         bump('offsets', len(src))
     except Exception as e:      # noqa
         fail('line-col', 'char_pos_to_line raised %s' % type(e).__name__)
@@ -333,12 +362,16 @@ def _oracle_lines(s):
         g = T.TexSoup(s).char_pos_to_line
     except Exception:           # noqa
         g = None
-    for p in range(len(s)):
-        want = _brute(s, p)
-        if tuple(f(p)) != want:
-            return p, 'CharToLineOffset(%r)(%d) = %r, counted %r' % (s, p, f(p), want)
-        if g is not None and tuple(g(p)) != want:
-            return p, 'TexSoup(%r).char_pos_to_line(%d) = %r, counted %r' % (s, p, g(p), want)
+    for oi, order in enumerate(lookup_orders(len(s))):
+        for p in order:
+            want = _brute(s, p)
+            got = tuple(f(p))
+            if got != want:
+                return p, 'CharToLineOffset(%r)(%d) = %r, counted %r (lookup order %d)' % (s, p, got, want, oi)
+            if g is not None:
+                got = tuple(g(p))
+                if got != want:
+                    return p, 'TexSoup(%r).char_pos_to_line(%d) = %r, counted %r (lookup order %d)' % (s, p, got, want, oi)
     return None
 
 
